@@ -30,7 +30,7 @@ DENY = {
     "AAFT_surrogates", "refined_AAFT_surrogates", "twin_surrogates",
     "shuffled_anomaly", "resample_diagline_dist", "resample_vertline_dist",
     "test_threshold_significance", "original_distribution",
-    "event_series_analysis", "event_analysis_significance",
+    "event_analysis_significance",
     # bookkeeping accessors (judged by neither C01 nor C06, DESIGN §4 C01.3)
     "find_link_attribute", "node_attribute", "link_attribute",
     "average_link_attribute",
@@ -70,6 +70,8 @@ VARIANTS = {
     "normalize": [False], "only_connected": [False],
     "replace_inf_by": [99.0], "use_directed": [False],
     "sources": ["@half1"], "targets": ["@half2"], "nsi": [False],
+    "method": ["ECA"], "symmetrization": ["mean", "max", "min"],
+    "window_type": ["retarded"],
 }
 
 
